@@ -526,6 +526,14 @@ def run(S, tier, bounds=None, sfx=''):
             if any(l not in proven for l in lemmas):
                 continue
             S.solver_s += dt
+            if r == 'error':
+                # the CLI could not read the query (an operator without a parsable name): decide it in-process instead
+                t_in = time.time()
+                slv.push()
+                slv.add(formula)
+                r = str(slv.check())
+                slv.pop()
+                dt += time.time() - t_in
             if r not in ('sat', 'unsat'):
                 raise Inconclusive('z3 answered %s on %s after %.0fs' % (r, qname, dt))
             if kind == 'witness':
@@ -941,7 +949,13 @@ def solve_batch(batch, timeout_s):
         s2.add(formula)
         fp = os.path.join(tmpdir, 'q%d.smt2' % n)
         with open(fp, 'w') as f:
-            f.write('(set-logic QF_BV)\n' + s2.to_smt2())
+            # z3 prints its unsigned multiplication-overflow predicate under a name its own parser does not know
+            pre = ''.join('(define-fun bvumul_noovfl ((a (_ BitVec %d)) (b (_ BitVec %d))) Bool (not (bvumulo a b)))\n' % (w_, w_)
+                          for w_ in (8, 16, 32, 64, 128))
+            # ... and the total (division by zero as in SMT-LIB) variants of the division operators
+            pre += ''.join('(define-fun %s_i ((a (_ BitVec %d)) (b (_ BitVec %d))) (_ BitVec %d) (%s a b))\n' % (op_, w_, w_, w_, op_)
+                           for op_ in ('bvudiv', 'bvurem', 'bvsdiv', 'bvsrem', 'bvsmod') for w_ in (8, 16, 32, 64, 128))
+            f.write('(set-logic QF_BV)\n' + pre + s2.to_smt2())
         files.append(fp)
 
     def one(fp):
@@ -954,6 +968,10 @@ def solve_batch(batch, timeout_s):
             out = 'timeout'
         lines = [l for l in out.split('\n') if l.strip()]
         ans = 'error' if '(error' in out else (lines[0] if lines else 'none')
+        if ans == 'error' and os.environ.get('VERIF_DEBUG'):
+            log('  z3 error on %s: %s' % (fp, out[:300]))
+            import shutil as _sh
+            _sh.copy(fp, '/tmp/z3-error.smt2')
         return ans, time.time() - t
     try:
         with ThreadPoolExecutor(max_workers=max(1, min(14, len(files)))) as pool:
